@@ -24,7 +24,8 @@ EXPLANATION = (
     ' (R6) bounds written by an accepted append are lossless (C13.R4); (R7) create_table / load_table keep no handle registry and return the Table constructed in the call.'
     ' (R8) pre-built files must exist at append and at commit time; (R9) the record validator raises for unknown fields and for missing / None required fields.'
     " (R12) a value the declared type cannot represent is rejected: the strict validator raises for a float with a fractional part in an int / long / date / time / timestamp field (pyarrow's from_pylist would truncate it), decided by scenario evaluation of the validator's branches; every from_pylist / write_records of write_data_file runs after that validator for a non-empty batch [D18, fixed]."
-    ' (R13) one conversion route: from_pylist(records, schema=...) only - no cast / schema-less rebuild in the write path.')
+    ' (R13) one conversion route: from_pylist(records, schema=...) only - no cast / schema-less rebuild in the write path.'
+    " (R14) the Iceberg -> Arrow type table is exact (timestamp('us'), int32 / int64, ...); (R15) no one-shot iterable is consumed in a loop it was not created in.")
 NOT_DECIDED = ("value-level round trip through Arrow/Parquet for every type and value class; 'mis-filter' in general; what "
                "pyarrow accepts for a declared type")
 
@@ -53,6 +54,8 @@ def check(ctx: Ctx) -> None:
     strict_validation_rejects(ctx)
     inexact_values_rejected(ctx)
     single_conversion_route(ctx)
+    type_map_is_exact(ctx)
+    one_shot_iterables(ctx, "C11.R15", ("data_operations", "transaction", "file_manager"))
     from .c04 import r1 as c04_r1
     ctx.shared(c04_r1, "C04.R1", "C11.R10", "a conflicting pointer write stays a conflict (it is not re-issued against a newer ETag)")
     # "no accepted append can make later scans fail": the range reader is sized by the object's real length, not by the size an
@@ -312,6 +315,83 @@ def single_conversion_route(ctx: Ctx, rid: str = "C11.R13") -> None:
                        "append is accepted and later scans return an altered value")
     if n == 0:
         raise AnalysisError("no record conversion found in the write path")
+
+
+ICEBERG_TO_ARROW = {
+    "boolean": ("bool_", ()), "int": ("int32", ()), "long": ("int64", ()), "float": ("float32", ()), "double": ("float64", ()),
+    "date": ("date32", ()), "time": ("time64", ("us",)), "timestamp": ("timestamp", ("us",)), "string": ("string", ()),
+    "binary": ("binary", ()),
+}
+
+
+def type_map_is_exact(ctx: Ctx, rid: str = "C11.R14") -> None:
+    ctx.rule(rid, "\"up to the declared column type's representation\": the Iceberg -> Arrow type table maps every primitive type to "
+             "the Arrow type that represents it exactly (int -> int32, long -> int64, float -> float32, double -> float64, date -> "
+             "date32, time -> time64('us'), timestamp -> timestamp('us'), string, binary, boolean) - a narrower type or a coarser "
+             "unit (timestamp('ms')) makes pyarrow floor / truncate accepted values silently", 8)
+    f = ctx.fn("data_operations.DataFileManager._iceberg_type_to_arrow")
+    tables = [x for x in walk_all(ctx, f) if isinstance(x, ast.Dict) and len(x.keys) >= 6
+              and all(isinstance(k, ast.Constant) and isinstance(k.value, str) for k in x.keys)]
+    if not tables:
+        raise AnalysisError("the Iceberg -> Arrow type table was not found in _iceberg_type_to_arrow")
+    t = tables[0]
+    seen = {}
+    for k, v in zip(t.keys, t.values):
+        seen[k.value] = v  # type: ignore[union-attr]
+    for name, (ctor, args) in sorted(ICEBERG_TO_ARROW.items()):
+        v = seen.get(name)
+        ok = isinstance(v, ast.Call) and (dotted(v.func) or "").split(".")[-1] == ctor and not v.keywords \
+            and tuple(a.value for a in v.args if isinstance(a, ast.Constant)) == args and len(v.args) == len(args)
+        ctx.ob(rid, f, f"'{name}' maps to pa.{ctor}({', '.join(map(repr, args))})", None, ok,
+               "exact representation" if ok else f"'{name}' -> `{norm_text(v) if v is not None else None}`: values of the declared type "
+               "are stored in a narrower / coarser Arrow type and come back altered", text=name)
+
+
+def one_shot_iterables(ctx: Ctx, rid: str, modules: Tuple[str, ...]) -> None:
+    ctx.rule(rid, "no one-shot iterable is consumed in a loop it was not created in: a generator expression / map / filter / zip / "
+             "iter bound to a name OUTSIDE a loop and iterated or tested INSIDE it is exhausted after the first pass - every later "
+             "record / file / snapshot is then checked against nothing", 1)
+    n = 0
+    for f in sorted(ctx.prog.functions.values(), key=lambda x: x.qname):
+        if isinstance(f.node, ast.Lambda) or f.module.short not in modules:
+            continue
+        g = ctx.cfg(f)
+        rd = ctx.rd(f)
+        for d in g.nodes:
+            if d.kind != "stmt" or not isinstance(d.ast, ast.Assign) or len(d.ast.targets) != 1 or not isinstance(d.ast.targets[0], ast.Name):
+                continue
+            v = d.ast.value
+            lazy = isinstance(v, ast.GeneratorExp) or (isinstance(v, ast.Call) and isinstance(v.func, ast.Name)
+                                                        and v.func.id in ("map", "filter", "zip", "iter", "reversed", "enumerate"))
+            if not lazy:
+                continue
+            n += 1
+            name = d.ast.targets[0].id
+            dloops = {id(fr.node) for fr in d.frames if fr.kind == "loop"}
+            bad = None
+            for u in g.nodes:
+                if u.ast is None or u.id == d.id or u.id not in g.reachable():
+                    continue
+                uloops = [fr.node for fr in u.frames if fr.kind == "loop"]
+                if u.kind == "loop" and isinstance(u.ast, ast.For):
+                    uses_here = name in names_in(u.ast.iter)
+                    uloops = uloops  # the loop node itself sits in its parents' frames: its iterable is evaluated per entry
+                elif u.kind in ("stmt", "branch", "call", "return"):
+                    uses_here = name in names_in(u.ast) if u.kind != "stmt" or not isinstance(u.ast, (ast.For, ast.While)) else False
+                else:
+                    uses_here = False
+                if not uses_here or d.id not in rd.reaching(u.id, name):
+                    continue
+                if any(id(l) not in dloops for l in uloops):
+                    bad = u
+                    break
+            ctx.ob(rid, f, "a lazy iterable is consumed where it was created", d, bad is None,
+                   "used in the loop nest it was built in" if bad is None else
+                   f"`{name}` ({norm_text(v)[:40]}) is built once but consumed inside a loop at line {bad.lineno}: empty from the second "
+                   "iteration on", text=name)
+    if n == 0:
+        ctx.ob(rid, ctx.fn("data_operations.DataFileManager.validate_records_strict"), "no lazy iterable bound to a name", None, True,
+               "nothing to judge", nontrivial=False)
 
 
 def handles_fresh(ctx: Ctx, rid: str = "C11.R7") -> None:
